@@ -1,7 +1,133 @@
 import H5V.Proto
-/- engine `xmltb` (stub) -/
+import H5V.Model.XmlTB
+/- engine `xmltb` — see harness/src/engines/xmltb.rs for the case and output syntax.
+   `tok <tokens>`               tokens (split names) into the tree-builder model
+   `src <chunks> <rawtokens>`   the raw token list (`S|M|E|H,rawname(,rawattr,value)*`, other tokens as
+                                in `tok`) goes through the tokenizer's attribute step (`finishTag`) and
+                                then the tree-builder model; the text chunks are for the harness only -/
 namespace H5V.Model.XmlTBDriver
+open H5V.Proto H5V.Model.XmlTB
 
-def runCase (_fields : List String) : String := "unimplemented"
+def validChar (n : Nat) : Bool := n < 0xd800 || (0xdfff < n && n < 0x110000)
+
+/-- `.`-joined hex code points, `-` = empty -/
+def undhex? (s : String) : Option Str :=
+  if s == "-" then some [] else
+  (s.splitOn ".").mapM (fun x => match parseHex? x with
+    | some n => if validChar n then some (Char.ofNat n) else none
+    | none => none)
+
+def undhexOpt? (s : String) : Option (Option Str) :=
+  if s == "~" then some none else (undhex? s).map some
+
+def dhex (s : Str) : String :=
+  if s.isEmpty then "-" else ".".intercalate (s.map (fun c => toHex c.toNat))
+
+def dhexOpt : Option Str → String
+  | none => "~"
+  | some s => dhex s
+
+def dumpName (n : QName) : String := dhexOpt n.pfx ++ ":" ++ dhex n.ns ++ ":" ++ dhex n.loc
+
+def dumpAttrs (as : List Attr) : String :=
+  String.join (as.map (fun a => " " ++ dumpName a.name ++ "=" ++ dhex a.value))
+
+mutual
+def dumpNode : Node → String
+  | .elem n as ks => "e[" ++ dumpName n ++ dumpAttrs as ++ "](" ++ dumpNodes ks ++ ")"
+  | .text s => "t[" ++ dhex s ++ "]"
+  | .comment s => "c[" ++ dhex s ++ "]"
+  | .pi t d => "p[" ++ dhex t ++ ":" ++ dhex d ++ "]"
+  | .doctype n p s => "d[" ++ dhex n ++ ":" ++ dhex p ++ ":" ++ dhex s ++ "]"
+def dumpNodes : List Node → String
+  | [] => ""
+  | n :: ns => dumpNode n ++ dumpNodes ns
+end
+
+def errCode : Err → String
+  | .xmlnsUri => "xu" | .xmlRedecl => "xr" | .xmlnsChanged => "xc" | .alreadyDefined => "ad"
+  | .invalidDecl => "iv" | .noNamespace => "nf" | .eofInStart => "es" | .unexpStart => "us"
+  | .unexpMain => "um" | .unexpEnd => "ue" | .currentMismatch => "cm"
+
+def dumpState (s : State) : String :=
+  let errs := s.errors.reverse.map errCode
+  let tree := dumpNodes s.document
+  "err=" ++ (if errs.isEmpty then "-" else ",".intercalate errs) ++ ";tree=" ++
+    (if tree.isEmpty then "-" else tree)
+
+def kind? : String → Option TagKind
+  | "S" => some .start | "M" => some .empty | "E" => some .end_ | "H" => some .short | _ => none
+
+def parseAttrs? : List String → Option (List RAttr)
+  | [] => some []
+  | p :: l :: v :: rest => do
+    let p ← undhexOpt? p
+    let l ← undhex? l
+    let v ← undhex? v
+    let as ← parseAttrs? rest
+    pure (⟨⟨p, l⟩, v⟩ :: as)
+  | _ => none
+
+def parseRawAttrs? : List String → Option (List RawAttr)
+  | [] => some []
+  | n :: v :: rest => do
+    let n ← undhex? n
+    let v ← undhex? v
+    let as ← parseRawAttrs? rest
+    pure (⟨n, v⟩ :: as)
+  | _ => none
+
+/-- tokens other than tags -/
+def parseOther? : List String → Option Token
+  | ["T", t] => (undhex? t).map .chars
+  | ["C", t] => (undhex? t).map .comment
+  | ["P", t, d] => do pure (.pi (← undhex? t) (← undhex? d))
+  | ["D", n, p, s] => do pure (.doctype (← undhexOpt? n) (← undhexOpt? p) (← undhexOpt? s))
+  | ["N"] => some .nullChar
+  | ["Z"] => some .eof
+  | _ => none
+
+def parseToken? (s : String) : Option Token :=
+  match s.splitOn "," with
+  | k :: p :: l :: rest =>
+    match kind? k with
+    | some kd => do
+      let p ← undhexOpt? p
+      let l ← undhex? l
+      let as ← parseAttrs? rest
+      pure (.tag ⟨kd, ⟨p, l⟩, as⟩)
+    | none => parseOther? (k :: p :: l :: rest)
+  | parts => parseOther? parts
+
+def parseRawToken? (cfg : TokCfg) (s : String) : Option Token :=
+  match s.splitOn "," with
+  | k :: n :: rest =>
+    match kind? k with
+    | some kd => do
+      let n ← undhex? n
+      let as ← parseRawAttrs? rest
+      pure (.tag (finishTag cfg ⟨kd, n, as⟩))
+    | none => parseOther? (k :: n :: rest)
+  | parts => parseOther? parts
+
+def parseList? (f : String → Option Token) (s : String) : Option (List Token) :=
+  if s == "-" then some [] else (s.splitOn ";").mapM f
+
+def runTokens (toks : List Token) : String :=
+  match run TbCfg.code State.init toks with
+  | .ok s => dumpState s
+  | .error e => "PANIC " ++ e
+
+def runCase (fields : List String) : String :=
+  match fields with
+  | ["tok", toks] =>
+    match parseList? parseToken? toks with
+    | some ts => runTokens ts
+    | none => "bad-case"
+  | ["src", _chunks, raw] =>
+    match parseList? (parseRawToken? TokCfg.code) raw with
+    | some ts => runTokens ts
+    | none => "bad-case"
+  | _ => "bad-case"
 
 end H5V.Model.XmlTBDriver
